@@ -115,7 +115,7 @@ FAMILIES["stream"] = {
     "n": {"quick": 5, "thorough": 120}, "no_shrink": True,
     "env": {"VF_SHARD": "600"},
     "codes": [(300, 300, ["C09"]), (301, 301, ["C12"]), (302, 305, ["C13"]), (306, 306, ["C14"]), (307, 309, ["C16"]),
-              (310, 329, ["C09"]), (330, 339, ["C15"])],
+              (310, 329, ["C09"]), (330, 339, ["C15"]), (340, 344, ["C13"]), (345, 349, ["C16"])],
     "code_names": {1: "undecodable case", 60: "stream acted on although the framing layer yields no message", 61: "verifyProtocol result differs from the model",
                    62: "bytes written to the stream differ from the model's framing", 63: "panic outcome differs",
                    300: "C09: a state exchange cut before its end changed the receiving side",
@@ -126,6 +126,9 @@ FAMILIES["stream"] = {
                    308: "C16: a correctly labelled stream was not accepted (label header fragmented across reads)",
                    309: "C16: adding the stream label header and removing it again did not give back the label and the payload (some fragmentation / read size)",
                    65: "RemoveLabelHeaderFromStream differs from the Label model",
+                   345: "C16: with several labelled streams open at once (every header removed before the rest is read), a stream did not give back its own label and payload",
+                   318: "C09: a compressed state exchange that inflates beyond the decompression cap changed the receiving side (merged / handed to a delegate)",
+                   340: "C13: a compressed stream inflating beyond the decompression cap was processed instead of being refused at the cap",
                    310: "C09: Join reported success but joiner and host do not list each other (and the host's members)",
                    311: "C09: host-side veto / incompatibility: Join succeeded one-sidedly (host replied before verifying and merging)",
                    312: "C09: failed Join changed the joiner's membership",
